@@ -37,7 +37,7 @@ ASSUMPTIONS = [
     "what `orphans` does with repaired links is outside this property",
     "class families are created per case (deprecate() cannot be undone)",
 ]
-MIN_CLASSES = {"quick": {"family-below-root": 400, "repair-steps>=2": 100, "mode:fix+cleanup": 100, "pre:link-present": 20, "family-task-root": 200}, "thorough": {"repair-steps>=2": 1000}}
+MIN_CLASSES = {"quick": {"family-below-root": 400, "repair-steps>=2": 100, "mode:fix+cleanup": 100, "pre:link-present": 20, "family-task-root": 200, "fault-injected": 15}, "thorough": {"repair-steps>=2": 1000}}
 
 POSITIONS = ["list", "dict", "nested", "inside-family", "producer"]
 
@@ -56,8 +56,11 @@ def plans(draw):
     return {
         "tasks": tasks,
         "moved": draw(st.booleans()),
-        "modes": draw(st.lists(st.sampled_from(["fix", "fix", "fix+cleanup"]), min_size=1, max_size=3)),
+        # "list+cleanup": the command without --fix but with --cleanup ("Ignoring --cleanup since we are not fixing")
+        "modes": draw(st.lists(st.sampled_from(["fix", "fix", "fix+cleanup", "list+cleanup"]), min_size=1, max_size=3)),
         "pre": draw(st.sampled_from([None, None, None, "link-present", "dangling-link", "conflicting-dir"])),
+        # an I/O fault (no space left) during the k-th rewrite of a parameter file by a cleanup step
+        "fault": draw(st.one_of(st.none(), st.none(), st.integers(0, 2))),
     }
 
 
@@ -262,9 +265,79 @@ def prop_repair(ctx, plan):
         before_sent = sentinels(wsdir / "jobs")
         before_files = regular_files(wsdir / "jobs")
         # 3. repair sequence
+        import experimaestro.tools.jobs as tj
+
+        class FaultyJson:
+            """json as seen by the repair tool: the k-th dump writes half of the document and fails"""
+
+            def __init__(self, k):
+                self.k = k
+                self.calls = 0
+                self.fired = False
+
+            def __getattr__(self, name):
+                return getattr(json, name)
+
+            def dump(self, obj, fp, **kw):
+                text = json.dumps(obj, **kw)
+                if self.calls == self.k and not self.fired:
+                    self.fired = True
+                    fp.write(text[: len(text) // 2])
+                    fp.flush()
+                    raise OSError(28, "No space left on device")
+                self.calls += 1
+                fp.write(text)
+
         for step, mode in enumerate(plan["modes"]):
+            faulty = None
+            if plan.get("fault") is not None and mode == "fix+cleanup" and "fault-injected" not in labels:
+                faulty = FaultyJson(plan["fault"])
+                tj.json = faulty
+            if mode == "list+cleanup":
+                # listing only: the command announces that it ignores --cleanup, so nothing may change
+                from experimaestro.cli import deprecated_list
+
+                snap0 = snapshot(wsdir / "jobs")
+                try:
+                    deprecated_list.callback(path=wsdir, fix=False, cleanup=True)
+                except Exception as e:
+                    ctx.violation(f"repair-raises:{type(e).__name__}", f"listing with --cleanup raised {e!r}")
+                finally:
+                    tg.Env.instance().wspath = None
+                if snapshot(wsdir / "jobs") != snap0:
+                    gone = sorted(set(snap0) - set(snapshot(wsdir / "jobs")))
+                    ctx.violation("listing-with-cleanup-changes-workspace", f"`deprecated list --cleanup` (without --fix, announced as ignored) removed {gone[:4]}: results linked by an earlier repair are unreachable again")
+                continue
             try:
-                fix_deprecated(wsdir, True, mode == "fix+cleanup")
+                try:
+                    fix_deprecated(wsdir, True, mode == "fix+cleanup")
+                finally:
+                    tj.json = json
+                    tg.Env.instance().wspath = None
+                if faulty is not None and faulty.fired:
+                    ctx.violation("fault-swallowed", "an I/O error while rewriting a parameter file was swallowed by the repair")
+            except OSError as e:
+                if faulty is not None and faulty.fired:
+                    # the repair was interrupted: nothing may be lost, every parameter file still
+                    # parses, and the same step without the fault then completes
+                    labels.append("fault-injected")
+                    for pj in (wsdir / "jobs").rglob("params.json"):
+                        try:
+                            json.loads(pj.read_text())
+                        except Exception:
+                            ctx.violation("parameter-file-destroyed-by-interrupted-repair", f"after an I/O fault during the cleanup rewrite, {pj.relative_to(wsdir)} is no longer a valid parameter file")
+                    if sentinels(wsdir / "jobs") != before_sent:
+                        ctx.violation("sentinel-lost", "job data disappeared during an interrupted repair")
+                    try:
+                        fix_deprecated(wsdir, True, True)
+                    except Exception as e2:
+                        ctx.violation(f"repair-raises-after-fault:{type(e2).__name__}", f"the repair cannot complete after an interrupted one: {e2!r}")
+                        break
+                    finally:
+                        tg.Env.instance().wspath = None
+                else:
+                    ctx.violation(f"repair-raises:{type(e).__name__}", f"repair step {step} ({mode}) raised {type(e).__name__}: {e} (pre-state {plan['pre']})")
+                    break
             except Exception as e:
                 ctx.violation(f"repair-raises:{type(e).__name__}", f"repair step {step} ({mode}) raised {type(e).__name__}: {e} (pre-state {plan['pre']})")
                 break
